@@ -514,6 +514,13 @@ func (g *mgen) mutates(fi *funcInfo, which string) bool {
 						return true
 					}
 				}
+				if fs := fi.t.src(x.Fun); strings.HasPrefix(fs, "binary.BigEndian.") {
+					// encoding/binary: UintN only read their argument, PutUintN write the first one
+					if strings.HasPrefix(fs, "binary.BigEndian.Put") && len(x.Args) > 0 && rooted(x.Args[0]) {
+						res = true
+					}
+					return true
+				}
 				var callee *funcInfo
 				var fn *types.Func
 				switch f := x.Fun.(type) {
@@ -1043,10 +1050,31 @@ func (c *mctx) expr(e ast.Expr) string {
 					failf("%s: positional composite literal", c.pos(e))
 				}
 				k := kv.Key.(*ast.Ident).Name
+				if t.rec.Fields[k] == "ignore" {
+					// the field is not represented; its initialiser must at least be effect-free
+					c.pure(kv.Value)
+					continue
+				}
 				if t.rec.field(k) == nil {
 					failf("%s: field %s.%s is not represented", c.pos(e), t.rec.Type, k)
 				}
-				vals[k] = c.expr(kv.Value)
+				fr := t.rec.field(k)
+				if fr.kind == "ref" {
+					// a reference slice initialised with the backing array itself
+					mf := t.rec.memField()
+					var memInit ast.Expr
+					for _, el2 := range x.Elts {
+						if kv2, ok := el2.(*ast.KeyValueExpr); ok && mf != nil && kv2.Key.(*ast.Ident).Name == mf.name {
+							memInit = kv2.Value
+						}
+					}
+					if memInit == nil || c.src(memInit) != c.src(kv.Value) {
+						failf("%s: reference slice %s must be initialised with the backing array", c.pos(e), k)
+					}
+					vals[k] = "(rs_whole " + c.expr(kv.Value) + ")"
+					continue
+				}
+				vals[k] = c.exprAs(kv.Value, fr.ty)
 			}
 			parts := []string{"mk_" + t.rec.name}
 			for _, f := range t.rec.fields {
